@@ -182,17 +182,33 @@ theorem handlePieceWriteDone_no_panic (m : M) (w : WriteJob) (e : Bool)
       · simp only [onSt_fst]; rw [hwb, hc, hXp]
       · rw [hc, hXp]
 
+theorem hmdStart_no_panic (m : M) (h : m.1.allocator = false) : (hmdStart m).1.panicked = m.1.panicked := by
+  unfold hmdStart
+  split
+  · simp only [onSt_fst]; rw [stop_panicked]
+  · simp [h]
+
+theorem hmdAdopt_no_panic (m : M) (h : m.1.allocator = false) : (hmdAdopt m).1.panicked = m.1.panicked := by
+  unfold hmdAdopt
+  dsimp only
+  repeat' split
+  all_goals first
+    | (simp only [onSt_fst]; rw [stop_panicked])
+    | (rw [hmdStart_no_panic _ (by simpa using h)]; rfl)
+
 /-- `handleMetadataData`: "allocator exists". -/
 theorem handleMetadataData_no_panic (m : M) (k i len : Nat) (g : Bool) (h : m.1.allocator = false) :
     (handleMetadataData m k i len g).1.panicked = m.1.panicked := by
-  unfold handleMetadataData
+  rw [handleMetadataData_eq]
+  split
+  · rfl
+  unfold hmdBlock
   dsimp only
   repeat' split
   all_goals first
     | rfl
     | (simp; done)
-    | (simp only [onSt_fst]; rw [stop_panicked])
-    | (simp [h]; done)
+    | (rw [hmdAdopt_no_panic _ (by simpa using h)]; rfl)
 
 /-! ### the replay of queued messages -/
 
